@@ -8,6 +8,7 @@ import (
 	"time"
 
 	"github.com/form3tech-oss/f1/v2/internal/trigger/api"
+	"github.com/form3tech-oss/f1/v2/internal/trigger/constant"
 	"github.com/form3tech-oss/f1/v2/internal/trigger/gaussian"
 	"github.com/form3tech-oss/f1/v2/internal/trigger/ramp"
 	"github.com/form3tech-oss/f1/v2/internal/trigger/staged"
@@ -41,6 +42,7 @@ type H5Cfg struct {
 	Weights       []float64 `json:"weights,omitempty"`
 	Rates         []int     `json:"rates,omitempty"` // scripted underlying rate per evaluation (cyclic)
 	RandBeyond    bool      `json:"rand_beyond,omitempty"`
+	ConstRate     int       `json:"const_rate,omitempty"` // kind constant: N of "N/<freq>"
 	PureTicks     int64     `json:"pure_ticks,omitempty"` // dist kind: evaluate this many consecutive sub-ticks back to back
 	BodyNs        []int64   `json:"body_ns,omitempty"`    // duration of the k-th started iteration (cyclic); empty = instantaneous
 	Direct        bool      `json:"direct,omitempty"`     // evaluate with a plain ticker loop instead of the real pool (large rates)
@@ -182,6 +184,8 @@ func h5Build(env *Env, c *H5Cfg, sh *h5Shared) (*api.Rates, error) {
 	case "gaussian":
 		return gaussian.CalculateGaussianRate(c.Volume, c.Jitter, time.Duration(c.RepeatMs)*time.Millisecond, freq,
 			time.Duration(c.PeakMs)*time.Millisecond, time.Duration(c.StddevMs)*time.Millisecond, weightsString(c.Weights), c.Dist)
+	case "constant":
+		return constant.CalculateConstantRate(c.Jitter, fmt.Sprintf("%d/%dms", c.ConstRate, c.FreqMs), c.Dist)
 	case "dist":
 		randFn := func(n int) int {
 			extremes := []uint32{0, uint32(n - 1), uint32(n / 2)}
@@ -230,7 +234,7 @@ func (h5) Describe(cfg any) string {
 func (h5) Gen(prop, tier string, r *simrt.Rng) (any, simrt.Config) {
 	c := &H5Cfg{Concurrency: 1 + r.Intn(4), Dist: "none"}
 	thorough := tier == "thorough"
-	kind := map[string]string{"C10": simrt.Pick(r, "staged", "staged", "ramp"), "C11": "gaussian", "C12": "dist",
+	kind := map[string]string{"C10": simrt.Pick(r, "staged", "staged", "ramp"), "C11": "gaussian", "C12": simrt.Pick(r, "dist", "dist", "dist", "constant"),
 		"C13": simrt.Pick(r, "jitter", "jitter", "staged", "ramp", "gaussian")}[prop]
 	if kind == "" {
 		kind = simrt.Pick(r, "staged", "ramp", "dist", "jitter", "gaussian")
@@ -363,6 +367,14 @@ func (h5) Gen(prop, tier string, r *simrt.Rng) (any, simrt.Config) {
 			c.PureTicks = int64(simrt.Pick(r, 12, 20, 33)) * 1000000
 			c.RunNs = int64(time.Second)
 		}
+	case "constant":
+		// the constant trigger as its builder composes it: jitter inside, distribution outside
+		c.Dist = simrt.Pick(r, "regular", "regular", "random")
+		c.FreqMs = simrt.Pick(r, int64(200), 300, 500, 1000, 2000)
+		c.ConstRate = simrt.Pick(r, 1, 7, 50, 200, 1000)
+		c.Jitter = simrt.Pick(r, 0.0, 10, 50, 90)
+		c.RunNs = int64(3+r.Intn(20))*c.FreqMs*ms + odd(r)
+		c.Direct = true
 	case "jitter":
 		c.Jitter = simrt.Pick(r, 0.0, 1, 5, 10, 25, 50, 75, 90, 99, 99.9)
 		c.FreqMs = simrt.Pick(r, int64(10), 20, 100)
@@ -468,13 +480,15 @@ func (h h5) Run(env *Env, cfg any) {
 		return
 	}
 	h5Cadence(env, c, sh, stats)
-	if c.Jitter > 0 && c.Kind != "jitter" && c.Kind != "dist" {
+	if c.Jitter > 0 && c.Kind != "jitter" && c.Kind != "dist" && c.Kind != "constant" {
 		if c.Dist == "none" {
 			h5Jitter(env, c, sh)
 		}
 		return
 	}
 	switch c.Kind {
+	case "constant":
+		h5ConstDist(env, c, sh)
 	case "staged", "ramp":
 		h5Shape(env, c, sh)
 	case "gaussian":
@@ -844,6 +858,39 @@ func h5Dist(env *Env, c *H5Cfg, sh *h5Shared) {
 	want := (len(sh.outer) + n - 1) / n
 	if len(sh.inner) != want {
 		env.Violate("C12", "underlying-evaluation-count", "dist/"+c.Dist, "%d sub-ticks in cycles of %d need %d evaluations of the underlying rate, saw %d", len(sh.outer), n, want, len(sh.inner))
+	}
+}
+
+// h5ConstDist: C12 on the constant trigger as composed by its builder. The underlying (possibly jittered) rate is
+// produced once per cycle, so within a cycle the regular distribution stays even whatever the jitter; without
+// jitter every cycle sums to the configured rate.
+func h5ConstDist(env *Env, c *H5Cfg, sh *h5Shared) {
+	n := int(c.FreqMs / 100)
+	if n < 2 {
+		return
+	}
+	q := c.Jitter / 100
+	for cyc := 0; (cyc+1)*n <= len(sh.outer); cyc++ {
+		vals := sh.outer[cyc*n : (cyc+1)*n]
+		sum, mn, mx := 0, math.MaxInt, math.MinInt
+		for _, v := range vals {
+			if v.V < 0 {
+				env.Violate("C12", "negative-subtick", "dist/constant", "cycle %d: a sub-tick value is %d", cyc, v.V)
+				return
+			}
+			sum += v.V
+			mn, mx = min(mn, v.V), max(mx, v.V)
+		}
+		if c.Dist == "regular" && mx-mn > 1 {
+			env.Violate("C12", "regular-uneven", "dist/constant", "cycle %d of the constant rate %d/%dms (jitter %g%%, regular distribution): sub-tick values range from %d to %d (%s)",
+				cyc, c.ConstRate, c.FreqMs, c.Jitter, mn, mx, fmtVals(vals))
+			return
+		}
+		if q == 0 && sum != c.ConstRate {
+			env.Violate("C12", "cycle-sum", "dist/constant", "cycle %d: values sum to %d, the constant rate is %d", cyc, sum, c.ConstRate)
+			return
+		}
+		env.Hit("h5.dist_cycles")
 	}
 }
 
